@@ -16,7 +16,8 @@ def run(ctx):
     c1 = gen.gen_pm1(rnd, True)
     if ctx.quick:
         rnd.shuffle(c2); rnd.shuffle(c1)
-        c2, c1 = c2[:350], c1[:350]
+        seg = [c for c in c2 if c[0].startswith("single-seg")]
+        c2, c1 = seg + [c for c in c2 if not c[0].startswith("single-seg")][:350 - len(seg)], c1[:350]
     else:
         c2 = gen.gen_pm2(rnd, False); c1 = gen.gen_pm1(rnd, False)
     for (tag, line, variant, g) in c2:
@@ -26,7 +27,7 @@ def run(ctx):
         cases.append(("-pm1-", tag, "pm1enc %s %s" % (hdr, line)))
     res = rtcheck.roundtrip(ctx, PID, cases,
         "pm2: outputs reaching each table-rebuild point (1,2,4,8 KiB, then every 4 KiB) exactly at a literal and in the middle of a copy "
-        "at every split, all history-position / copy-length / distance classes at both ends, single-code tables, 16 table variants; "
+        "at every split, all history-position / copy-length / distance classes at both ends, single-code tables at the start and for a whole segment after varied data (one kind of copy from one re-read point to the next), 16 table variants; "
         "pm1: every start header 0..31, output positions around every distance-width threshold +-1, block lengths 1..216 (+1), copy "
         "length class boundaries; streams from the extracted spec serialisers; C output must equal the spec expansion; model compared. "
         "non-trivial = distinct case with output")
